@@ -8,6 +8,7 @@ import platform
 import logging
 import warnings
 import pickle
+import threading
 from pathlib import Path
 from typing import Dict, Any
 
@@ -226,8 +227,21 @@ def try_to_save_module(hashed_grammar, file_io, module, lines, pickling=True, ca
 
 
 def _save_to_file_system(hashed_grammar, path, item, cache_path=None):
-    with open(_get_hashed_path(hashed_grammar, path, cache_path=cache_path), 'wb') as f:
-        pickle.dump(item, f, pickle.HIGHEST_PROTOCOL)
+    pickle_path = _get_hashed_path(hashed_grammar, path, cache_path=cache_path)
+    # Write to a temporary file and move it into place. Otherwise other
+    # processes that load or save the same module at the same time see (or
+    # produce) a mixture of two pickles.
+    tmp_path = '%s.%s-%s.tmp' % (pickle_path, os.getpid(), threading.get_ident())
+    try:
+        with open(tmp_path, 'wb') as f:
+            pickle.dump(item, f, pickle.HIGHEST_PROTOCOL)
+        os.replace(tmp_path, pickle_path)
+    except BaseException:
+        try:
+            os.remove(tmp_path)
+        except OSError:
+            pass
+        raise
 
 
 def clear_cache(cache_path=None):
